@@ -60,7 +60,7 @@ CertInfo(p) ==
     [] OTHER                 -> [leaf |-> p, path |-> <<"rootA">>, sent |-> {}]   \* the plain leaves under root A
 PlainLeaves == {"l_exp", "l_fut", "l_rev", "l_eku_server", "l_eku_client", "l_eku_both", "l_eku_other",
                 "l_name_san", "l_name_cn", "l_name_cnonly", "l_name_none", "l_exp_rev", "l_exp_name_none",
-                "l_rev_name_none"}
+                "l_rev_name_none", "l_name_w3", "l_name_wild", "l_name_wcn"}
 PresentFiles == {"l_ok", "l_sub", "l_sub_chain", "l_x", "l_x_chain", "l_subx_chain", "l_self", "l_forged",
                  "l_notca_chain", "l_caexp", "l_cafut", "l_subexp_chain", "l_sub_rev_chain", "l_subr_chain",
                  "l_exp_x", "good_c", "good_s"} \cup PlainLeaves
@@ -74,6 +74,9 @@ EkuOf(id) == CASE id = "l_eku_server" -> {"server"} [] id = "l_eku_client" -> {"
 \* where the expected name ("localhost") occurs in the leaf
 NameOf(id) == CASE id = "l_name_san" -> "san" [] id = "l_name_cn" -> "cn" [] id = "l_name_cnonly" -> "cnonly"
                 [] id \in {"l_name_none", "l_exp_name_none", "l_rev_name_none"} -> "none"
+                \* the other expected name ("w.c09.example"): exactly / only through a wildcard pattern ("*.c09.example" as a
+                \* DNS SAN or as the CN)
+                [] id = "l_name_w3" -> "w3" [] id \in {"l_name_wild", "l_name_wcn"} -> "wild"
                 [] OTHER -> "both"
 
 Bundle(t) ==
@@ -211,7 +214,9 @@ TimeBad(f) == f.leaftime # "ok" \/ f.catime \ {"ok"} # {}
 \* the purpose the verifying side needs: a TLS client checks a server certificate and vice versa
 Needed(c) == IF c.client THEN "server" ELSE "client"
 EkuForbids(f, c) == f.eku # {"absent"} /\ Needed(c) \notin f.eku
-NameMatches(f, names) == names \in {"good", "multi", "host"} /\ f.name # "none"
+\* wildcard matching is disabled (xcm.h): a pattern never satisfies an expected name
+NameMatches(f, names) == \/ (names \in {"good", "multi", "host"} /\ f.name \notin {"none", "w3", "wild"})
+                         \/ (names = "w3" /\ f.name = "w3")
 
 \* c: the side's finalized configuration (creation succeeded), p: what the peer presents
 PolicyUnmet(c, p) ==
